@@ -88,6 +88,9 @@ func runC12(r *an.Run) {
 					if a[1] != want {
 						o.FailAt(f.ID+"#delta", s.Where(), "an HTLC from %s is timed with %s, expected %s", hdr, a[1], want)
 					}
+					if ok, _ := regexp.MatchString(`^\$p\d+$`, a[2]); !ok {
+						o.FailAt(f.ID+"#height-arg", s.Where(), "shouldGoOnChain is asked about height %s, expected the height the evaluation was called with", a[2])
+					}
 					if !strings.HasPrefix(a[0], "$elem(") {
 						o.FailAt(f.ID+"#htlc-arg", s.Where(), "the HTLC checked (%s) is not the loop element", a[0])
 					}
